@@ -32,6 +32,11 @@ def selftest(n=150, seed=1):
                   "rtol": common.num(1e-12), "ok": True})
     cases.append({"op": "rclose", "x": common.num(0.3334), "y": one, "z": three, "atol": common.num(0),
                   "rtol": common.num(1e-12), "ok": False})
+    import math
+    zero = common.num(0)
+    for name, val, rel in (("Pi2G", 9.81 * math.pi ** 2, 1e-10), ("Pi4", math.pi / 4, 1e-12), ("Q2Pow", 0.0004 ** 1.852, 1e-4),
+                           ("Qtol", 2.83168e-6, 1e-12), ("TwoG", 19.62, 1e-12)):
+        cases.append({"op": "const", "name": name, "x": common.num(val), "y": common.num(rel)})
     v = common.run_cases("DecTest", cases, nproc=4)
     if v:
         raise common.MachineryError("Dec.tla self-test failed on %d cases, e.g. %r" % (len(v), cases[v[0][0]]))
